@@ -233,6 +233,13 @@ class Path:
         # any([a, b, ...]) / all((a, b, ...)) over a display: the disjunction / conjunction of the elements
         if isinstance(t, tuple) and t[0] == "call" and t[1] in (("builtin", "any"), ("builtin", "all")) and len(t[2]) == 1 and not t[3] and t[2][0][0] in ("list", "tuple") and t[2][0][1] and not any(x[0] == "star" for x in t[2][0][1]):
             t = ("boolop", "or" if t[1][1] == "any" else "and", tuple(t[2][0][1]))
+        # any(f(x) for x in (a, b, ...)) / all([...for x in [a, b]]): one generator over a display, no filter — f(a) or f(b) or ...
+        if (isinstance(t, tuple) and t[0] == "call" and t[1] in (("builtin", "any"), ("builtin", "all")) and len(t[2]) == 1 and not t[3] and t[2][0][0] == "comp" and t[2][0][1] in ("gen", "list")
+                and len(t[2][0][4]) == 1 and not t[2][0][4][0][2] and t[2][0][4][0][1][0] in ("list", "tuple") and t[2][0][4][0][1][1] and len(t[2][0][4][0][1][1]) <= 12
+                and not any(x[0] == "star" for x in t[2][0][4][0][1][1]) and isinstance(t[2][0][4][0][0], tuple) and t[2][0][4][0][0][0] == "bound"):
+            c = t[2][0]
+            tgt, elems = c[4][0][0], c[4][0][1][1]
+            t = ("boolop", "or" if t[1][1] == "any" else "and", tuple(replace_terms(c[3], {tgt: e}) for e in elems))
         # a regex match object is always truthy: `if m:` is `if m is not None:`
         if isinstance(t, tuple) and t[0] == "call" and t[1][0] == "attr" and t[1][2] in ("search", "match", "fullmatch"):
             t, neg = ("compare", ("is",), (t, ("const", None))), not neg
@@ -662,6 +669,10 @@ class Evaluator:
             p.env[target.id] = v
         elif isinstance(target, (ast.Tuple, ast.List)):
             n = len(target.elts)
+            # a, b, c = (f(x) for x in (p, q, r)): a comprehension over a display of the same length, unpacked — element by element
+            if (v[0] == "comp" and v[1] in ("gen", "list") and len(v[4]) == 1 and not v[4][0][2] and v[4][0][1][0] in ("list", "tuple") and len(v[4][0][1][1]) == n
+                    and not any(x[0] == "star" for x in v[4][0][1][1]) and isinstance(v[4][0][0], tuple) and v[4][0][0][0] == "bound"):
+                v = ("tuple", tuple(replace_terms(v[3], {v[4][0][0]: e}) for e in v[4][0][1][1]))
             if v[0] in ("tuple", "list") and len(v[1]) == n and not any(isinstance(e, ast.Starred) for e in target.elts):
                 for t, x in zip(target.elts, v[1]):
                     if x[0] == "ifexp" and isinstance(t, ast.Name) and hasattr(p, "_choices"):
@@ -754,10 +765,18 @@ class Evaluator:
         info = LoopInfo(uid, kind, st)
         self.loops[uid] = info
         assigned = assigned_names(st.body) | mutated_names(st.body)
+        enum_index = None
         if kind == "for":
             info.iter = self.expr(st.iter, p)
             info.target = st.target
-            assigned |= assigned_names([ast.Expr(value=st.target)]) if False else set()
+            # `for i, x in enumerate(xs)` is `for x in xs` with a running index: the loop is over xs (the index is a value of its own)
+            it_ = info.iter
+            if (isinstance(it_, tuple) and it_[0] == "call" and it_[1] == ("builtin", "enumerate") and 1 <= len(it_[2]) <= 2 and all(k == "start" for k, _ in it_[3])
+                    and isinstance(st.target, (ast.Tuple, ast.List)) and len(st.target.elts) == 2 and isinstance(st.target.elts[0], ast.Name)):
+                info.iter = it_[2][0]
+                info.enum_start = it_[2][1] if len(it_[2]) == 2 else (dict(it_[3]).get("start"))
+                enum_index = st.target.elts[0].id
+                info.target = st.target.elts[1]
         body_env = dict(p.env)
         pre = {}
         for n in assigned:
@@ -765,7 +784,10 @@ class Evaluator:
                 pre[n] = p.env[n]
                 body_env[n] = ("carried", n, uid)
         head = Path(body_env)
-        if kind == "for":
+        if kind == "for" and enum_index is not None:
+            head.env[enum_index] = ("loopindex", uid)
+            self._bind_target(st.target.elts[1], ("loopvar", uid, info.iter, ()), head, st)
+        elif kind == "for":
             self._bind_target(st.target, ("loopvar", uid, info.iter, ()), head, st)
         else:
             info.test = self.expr(st.test, head)
@@ -1308,6 +1330,8 @@ class Evaluator:
                     return hit[-1]  # {"a": x}["a"] is x
             if base_t[0] in ("tuple", "list") and idx_t[0] == "const" and isinstance(idx_t[1], int) and not isinstance(idx_t[1], bool) and -len(base_t[1]) <= idx_t[1] < len(base_t[1]) and not any(x[0] == "star" for x in base_t[1]):
                 return base_t[1][idx_t[1]]
+            if M_is_call(base_t) and base_t[1][0] == "attr" and base_t[1][2] == "groupdict" and not base_t[2] and not base_t[3] and idx_t[0] == "const" and isinstance(idx_t[1], str):
+                return ("call", ("attr", base_t[1][1], "group"), (idx_t,), ())  # m.groupdict()["name"] is m.group("name")
             t = ("sub", base_t, idx_t)
             if not isinstance(node.slice, ast.Slice):
                 p.effects.append(Effect("subscript", t, node=node, maybe=maybe))
@@ -1349,6 +1373,16 @@ class Evaluator:
             q = Path(dict(p.env))
             for n in params:
                 q.env[n] = ("bound", n, uid)
+            # a parameter with a default (`lambda m, repl=anon_val: repl`) is a value captured when the lambda is made: callers that pass only
+            # the leading arguments (re.sub callbacks, sort keys, filter/map functions) see the default, so it is the default's term
+            pos = a.posonlyargs + a.args
+            bound_defaults = []
+            for x, d in list(zip(pos[len(pos) - len(a.defaults):], a.defaults)) + [(x, d) for x, d in zip(a.kwonlyargs, a.kw_defaults) if d is not None]:
+                bound_defaults.append((x.arg, self.expr(d, p)))
+            if bound_defaults and len(bound_defaults) < len(params):
+                for n, v in bound_defaults:
+                    q.env[n] = v
+                params = [n for n in params if n not in {b for b, _ in bound_defaults}]
             if a.vararg:
                 q.env[a.vararg.arg] = ("bound", "*" + a.vararg.arg, uid)
             if a.kwarg:
@@ -1379,6 +1413,8 @@ class Evaluator:
             if kind == "list" and len(t[4]) == 1 and not t[4][0][2] and t[4][0][1][0] in ("tuple", "list") and 0 < len(t[4][0][1][1]) <= 8 and not any(x[0] == "star" for x in t[4][0][1][1]):
                 # comprehension over a short display: the list of its instances
                 return ("list", tuple(replace_terms(t[3], {t[4][0][0]: x}) for x in t[4][0][1][1]))
+            if kind == "gen" and len(t[4]) == 1 and not t[4][0][2] and t[3] == t[4][0][0]:
+                return t[4][0][1]  # (x for x in xs): the elements of xs, one by one — for its single consumer the same as xs
             self.comps[uid] = (node, t)
             return t
         if isinstance(node, ast.Starred):
@@ -1461,6 +1497,12 @@ class Evaluator:
         if f == ("builtin", "open") and len(args) == 1 and any(k == "mode" for k, _ in kwargs):
             args = list(args) + [v for k, v in kwargs if k == "mode"]
             kwargs = [(k, v) for k, v in kwargs if k != "mode"]
+        if f == ("builtin", "len") and len(args) == 1 and not kwargs and args[0][0] == "global":
+            # the length of a module-level constant table is a constant (`N = len(TABLE)` hoisted into a name and `len(TABLE)` in place are one term);
+            # in-place changes of module-level objects are the global-state rule's business
+            n_ = const_len(self.p, args[0])
+            if n_ is not None:
+                return ("const", n_)
         if f == ("builtin", "divmod") and len(args) == 2 and not kwargs:
             return ("tuple", (("binop", "//", args[0], args[1]), ("binop", "%", args[0], args[1])))
         nostar = not any(a[0] == "star" for a in args) and not any(k is None for k, _ in kwargs)
@@ -1650,6 +1692,8 @@ class Evaluator:
         owner, expr = cls.find_assign(attr)
         if owner is None or any(attr in sc.assigns for sc in self.p.subclasses(cls)):
             return None
+        if b[0] == "param" and _attr_assigned_on_instances(self.p, cls, attr):
+            return None  # a class-level default that instances replace: self.<attr> is the instance's field, not the constant
         from .fold import Unfoldable
         try:
             v = _folder_of(self.p).class_const(owner, attr)
@@ -1977,6 +2021,56 @@ ANCHORS = {
 }
 
 
+def _attr_assigned_on_instances(prog, cls, attr):
+    """Does any method of the class, its bases or its subclasses store `<first parameter>.<attr>` (or any `x.<attr>` for a name bound to an instance)?"""
+    cache = prog.__dict__.setdefault("_inst_attr_stores", {})
+    key = (cls.qualname, attr)
+    if key in cache:
+        return cache[key]
+    found = False
+    for c in set(cls.mro()) | set(prog.subclasses(cls)):
+        for n in ast.walk(c.node):
+            if isinstance(n, ast.Attribute) and n.attr == attr and isinstance(n.ctx, (ast.Store, ast.Del)) and not (isinstance(n.value, ast.Name) and n.value.id in ("cls", c.name)):
+                found = True
+    cache[key] = found
+    return found
+
+
+def canon_ext(prog, t):
+    """The term with every reference to an object outside the package written as ("ext", dotted name), whatever the import style
+    (`from binascii import b2a_hex` / `import binascii; binascii.b2a_hex` / an alias): for comparing a term with an expected shape."""
+    if not isinstance(t, tuple) or not t:
+        return t
+    if t[0] == "global" and len(t) == 3 and t[1] in prog.modules:
+        r = prog.resolve_module_name(prog.modules[t[1]], t[2])
+        if r and r[0] == "ext":
+            return ("ext", r[1])
+        return t
+    out = tuple(canon_ext(prog, x) if isinstance(x, tuple) else x for x in t)
+    if out[0] == "attr" and isinstance(out[1], tuple) and out[1] and out[1][0] == "ext":
+        return ("ext", out[1][1] + "." + out[2])
+    return out
+
+
+def const_len(prog, t):
+    """len() of a module-level constant sequence / mapping / string of the package, or None."""
+    if not (isinstance(t, tuple) and len(t) == 3 and t[0] == "global" and t[1] in prog.modules):
+        return None
+    m = prog.modules[t[1]]
+    if len(m.assigns.get(t[2], ())) != 1:
+        return None
+    from .fold import Unfoldable
+    try:
+        v = _folder_of(prog).module_const(t[1], t[2])
+    except Unfoldable:
+        return None
+    except Exception:
+        return None
+    if isinstance(v, (list, tuple, str, dict, set, frozenset)):
+        return len(v)
+    return None
+
+
 def _folder_of(prog):
     f = getattr(prog, "_folder", None)
     if f is None:
@@ -2083,7 +2177,7 @@ class _Subst:
             return ("loopvar", self.uid(t[1]), self.term(t[2]), t[3])
         if tag in ("carried", "loopout", "bound", "exc"):
             return (tag, t[1], self.uid(t[2]))
-        if tag in ("inloop", "loopbreak"):
+        if tag in ("inloop", "loopbreak", "loopindex"):
             return (tag, self.uid(t[1]))
         if tag == "except":
             return ("except", self.uid(t[1]), self.term(t[2]), t[3])
@@ -2202,7 +2296,7 @@ def subterms(t):
     if t and isinstance(t[0], str):
         yield t
         tag = t[0]
-        if tag in ("const", "param", "global", "builtin", "unbound", "bound", "carried", "loopout", "exc", "unknown", "inloop", "loopbreak"):
+        if tag in ("const", "param", "global", "builtin", "unbound", "bound", "carried", "loopout", "exc", "unknown", "inloop", "loopbreak", "loopindex"):
             return
         if tag == "loopvar":
             for x in subterms(t[2]):
@@ -2233,7 +2327,7 @@ _TAGS = {
     "const", "param", "global", "builtin", "unbound", "attr", "call", "binop", "unop",
     "boolop", "compare", "sub", "slice", "tuple", "list", "set", "dict", "ifexp", "comp",
     "lambda", "fstr", "fmt", "bound", "loopvar", "carried", "loopout", "mut", "exc", "star",
-    "unknown", "inloop", "loopbreak", "except",
+    "unknown", "inloop", "loopbreak", "except", "loopindex",
 }
 
 
@@ -2341,7 +2435,7 @@ def show(t, depth=0):
         return "*" + s(t[1])
     if tag == "unknown":
         return "<unknown %s>" % t[1]
-    if tag in ("inloop", "loopbreak"):
+    if tag in ("inloop", "loopbreak", "loopindex"):
         return "%s#%s" % (tag, t[1])
     if tag == "except":
         return "except %s" % s(t[2])
